@@ -61,10 +61,9 @@ def M.applyPix : M → Pixel → Rat
   | .linear s o, p => linF s o p.val
   | .het _ s o, p => linF (listGetD s p.label 0) (listGetD o p.label 0) p.val
 
-def M.apply (m : M) (sig : List Pixel) : List Pixel := sig.map fun p => ⟨p.label, m.applyPix p⟩
-
-/-- `CombinedModel.__call__`: the models one after the other -/
-def applyAll (ms : List M) (sig : List Pixel) : List Pixel := ms.foldl (fun s m => m.apply s) sig
+def M.isHet : M → Bool
+  | .het .. => true
+  | _ => false
 
 /-! ### the generic label-wise wrapper `HeterogeneousModel(obj, labels)` -/
 
@@ -75,7 +74,6 @@ def wrapApplyPix (ms : List M) (p : Pixel) : Rat :=
   | some m => m.applyPix p
   | none => 0
 
-def wrapApply (ms : List M) (sig : List Pixel) : List Pixel := sig.map fun p => ⟨p.label, wrapApplyPix ms p⟩
 
 /-! ### `cv2.resize(labels, (W, H), interpolation=cv2.INTER_NEAREST)` -/
 
